@@ -66,6 +66,10 @@ ASSUMED = {
     D_ + 'insert_with_statistics|Err':
         'class 2: same correlation as DelaunayTriangulation::insert (snapshot is None only when no post-step can fail)',
 }
+ASSUMED[D_ + 'remove_vertex|Err'] = (
+    'class 2: the Err arm after the post-removal repair restores from `snapshot`; snapshot is None only when the repair '
+    'policy is Never, and then should_run_delaunay_repair_for() is false (it returns false for that policy first), so '
+    'the repair block — the only place this exit lives — is not entered')
 _F2 = ('class 3 (open item F2): failure after the first new cell was inserted; each of these calls fails only on an '
        'internally inconsistent Tds (missing vertex key, non-manifold cavity boundary, broken neighbour symmetry) or '
        'under an injected fault; no input through the public API found that reaches it')
